@@ -287,6 +287,7 @@ func zzRunOnce(t *testing.T, r *simcore.Run) {
 				}
 			}()
 			zzSawFwdShutdown.Store(false)
+			zzSpuriousResponses.Store(0)
 			s := &zzSim{r: r, t: bt, midCutConn: -1}
 			s.run()
 		})
